@@ -589,9 +589,39 @@ class _Canon(ast.NodeTransformer):
             return node.operand.operand
         return node
 
+    # [f(x) for x in [g(y) for y in S if c] if d(x)]  ==  [f(g(y)) for y in S if c if d(g(y))]
+    def _fuse(self, node):
+        self.generic_visit(node)
+        if len(node.generators) != 1 or not isinstance(node.generators[0].target, ast.Name):
+            return node
+        g = node.generators[0]
+        inner = g.iter
+        if not (isinstance(inner, (ast.ListComp, ast.GeneratorExp)) and len(inner.generators) == 1):
+            return node
+        ig = inner.generators[0]
+        x = g.target.id
+        inner_names = {n.id for n in ast.walk(ig.target) if isinstance(n, ast.Name)}
+        outer_free = {n.id for part in [node.elt] + list(g.ifs) for n in ast.walk(part) if isinstance(n, ast.Name)} - {x}
+        if inner_names & outer_free:
+            return node
+        from .summ import _subst
+        env = {x: inner.elt}
+        new = type(node)(elt=_subst(node.elt, env), generators=[ast.comprehension(
+            target=copy.deepcopy(ig.target), iter=copy.deepcopy(ig.iter), ifs=[copy.deepcopy(c) for c in ig.ifs] + [_subst(c, env) for c in g.ifs], is_async=0)])
+        return ast.copy_location(new, node)
 
-def canon(e: ast.AST) -> ast.AST:
-    return ast.fix_missing_locations(_Canon().visit(copy.deepcopy(e)))
+    def visit_ListComp(self, node):
+        return self._fuse(node) if self.fuse else self.generic_visit(node)
+
+    visit_GeneratorExp = visit_ListComp
+    fuse = False
+
+
+def canon(e: ast.AST, fuse: bool = False) -> ast.AST:
+    """`fuse`: also merge a comprehension over a comprehension into one."""
+    c = _Canon()
+    c.fuse = fuse
+    return ast.fix_missing_locations(c.visit(copy.deepcopy(e)))
 
 
 def ctext(e: ast.AST) -> str:
